@@ -17,7 +17,7 @@ def gen_cfg(tier, name="IngestGen", sorter=False):
     d = vlib.spec_copy()
     fn = "%s.%s%s.cfg" % (name, tier, ".sorter" if sorter else "")
     if sorter:
-        rems = 'Rems = {{}, {"f0"}, {"f1"}, {"v"}, {"f0", "f1"}, {"f0", "v"}, {"f1", "v"}, {"f0", "f1", "v"}}'
+        rems = 'Rems = {{}, {"f0"}, {"f1"}, {"v"}, {"f0", "f1"}, {"f0", "v"}, {"f1", "v"}, {"f0", "f1", "v"}, {"f1", "t"}, {"f0", "t", "v"}}'
         if tier == "quick":
             consts = 'B = 2\n N = 3\n Shapes = {"n", "a", "b", "ab", "ba"}\n Runs = {0, 1, 2}\n Pads = {0, 254}\n ' + rems
         else:
